@@ -247,7 +247,41 @@ def c12(tier, seed):
     return c.finish()
 
 
-PROPS = {"C11": c11, "C12": c12, "C10": c10, "C13": c13, "C06": c06, "C08": c08, "C09": c09, "C01": c01, "C02": c02, "C03": c03, "C04": c04, "C05": c05}
+def device_family(c, fam, module, cfg, seed, tier, max_events=600, extra=(), queues=True, profile="dev"):
+    """Run a driver-level scenario family; validate the device-level trace against the device
+    specification and every virtqueue's trace against VirtQueue.tla."""
+    out = os.path.join(WORK, c.pid, f"{fam}{'-'.join(extra)}.ndjson")
+    idx = run_harness(fam, out, seed, tier, list(extra), profile=profile)
+    v = validate_traces(module, cfg, out, idx, max_events=max_events)
+    c.add_validation(v, fam)
+    c.states += v["states"]
+    res = {}
+    for r in idx["summaries"]:
+        k = str(r.get("result", "?"))[:40]
+        res[k] = res.get(k, 0) + 1
+    c.extra.setdefault("scenario_results", {})[fam + "".join(extra)] = res
+    c.samples.append({"family": fam, "scenario": idx["scenarios"][0], "summary": idx["summaries"][0]})
+    if queues and os.path.exists(out + ".q.ndjson"):
+        qv = validate_traces("VirtQueueTrace", "VirtQueueTrace.cfg", out + ".q.ndjson", {"scenarios": []})
+        qv["scenarios"] = 0
+        c.add_validation(qv, fam + "/queues")
+    if not c.violations:
+        for f in (out, out + ".q.ndjson"):
+            if os.path.exists(f):
+                os.remove(f)
+    return idx
+
+
+def c14(tier, seed):
+    c = Check("C14", tier, seed)
+    c.rule = "MC (BlkMC): every behaviour the guards allow with <=3 outstanding non-blocking requests, 2 sectors, statuses {0,1,3}, any answer/publication order, any poll; traces: random histories of read/write/flush/device_id (blocking) and read_nb/write_nb/complete_* with up to a queue-full outstanding, device statuses {0,1,2,3,9}, sectors incl. > 2^32, 1..128 sectors per request, completion in any order, on model / MMIO legacy+modern / PCI transports x servicing policies (notify-only, poll, late) x feature sets; each decoded request and each result validated; queue-level traces validated against VirtQueue.tla"
+    c.assumptions = ["the reference block device decodes the request header per Virtio 1.2 5.2.6 (little-endian type/reserved/sector)", "data integrity is compared by 64-bit FNV digests"]
+    c.add_mc(run_tlc_mc("BlkMC", "BlkMC.cfg", workers=MCW, timeout=900))
+    device_family(c, "blk", "BlkTrace", "BlkTrace.cfg", seed, tier)
+    return c.finish()
+
+
+PROPS = {"C14": c14, "C11": c11, "C12": c12, "C10": c10, "C13": c13, "C06": c06, "C08": c08, "C09": c09, "C01": c01, "C02": c02, "C03": c03, "C04": c04, "C05": c05}
 
 
 def main():
